@@ -1059,6 +1059,15 @@ func (g *G) argFor(p FuncParam, w Want, depth int) *Node {
 func (g *G) Template(depth int) *Node {
 	t := &Node{Kind: KTemplate, Ty: cty.String}
 	t.Parts = g.tparts(depth, 1+g.R.Intn(4))
+	if Chance(g.R, 0.3) {
+		// multi-line templates ending in a newline can be laid out as heredocs
+		for i := range t.Parts {
+			if t.Parts[i].Kind == TLit && Chance(g.R, 0.5) {
+				t.Parts[i].Lit += Pick(g.R, []string{"\n", "\n  ", "\n\t", " \n"})
+			}
+		}
+		t.Parts = append(t.Parts, TPart{Kind: TLit, Lit: Pick(g.R, []string{"\n", "end\n", "  x\n", "a b\n"})})
+	}
 	// the single-interpolation "unwrap" shape yields the inner type
 	if len(t.Parts) == 1 && t.Parts[0].Kind == TInterp {
 		t.Ty = t.Parts[0].Expr.Ty
